@@ -7,12 +7,15 @@
          member := <id> <instance> <clientid> <host> <rebalance> <session> <subscription> <assignment>
          assignment := N | E | A <ver> <ntopics> {<topic> <nparts> {<part>}} <userdata>
      re  <allow> <deny> <grouphex>
+     c10m <a_set> <a_m> <d_set> <d_m> <order> <keyhex> <valuehex>     (second phase of the C10 reader cases: the four
+          booleans are what the probe's real regexps answered for the message's group; see checks/c10_wire.py)
    strings: N = null, - = empty, else hex.  <allow>/<deny> index the pattern pool below (0 = not set).
 
    output lines
      msg : OK <n> <req> ; <req> ... | A <sum of model allocs>      or   CRASH | <why>
      vo/vm : K <keyhex> V <valuehex> => <as msg>
      re : ACC 0|1
+     c10m : <as msg, without the | part, lists as given> || <the same with no lists>
    req := <kind> test <group> <topic> <partition> <offset> <timestamp> <order> <owner> <clientid>, sorted *)
 open Model
 open Vutil
@@ -134,6 +137,20 @@ let re t : string =
   let g = bytes_of_hex (next t) in
   if accept allow deny g then "ACC 1" else "ACC 0"
 
+let strip_info (s : string) : string =
+  match String.index_opt s '|' with
+  | Some i when i > 0 -> String.sub s 0 (i - 1)
+  | _ -> s
+
+let c10m t : string =
+  let b () = next_int t <> 0 in
+  let a_set = b () in let a_m = b () in let d_set = b () in let d_m = b () in
+  let order = next_z t in
+  let key = bytes_of_hex (next t) in let value = bytes_of_hex (next t) in
+  let acc = reader_accept a_set a_m d_set d_m in
+  strip_info (fmt_outcome (process_message (fun _ -> acc) key value order)) ^ " || "
+  ^ strip_info (fmt_outcome (process_message (fun _ -> true) key value order))
+
 let run (line : string) : string =
   let t = toks_of_line line in
   match next t with
@@ -141,4 +158,5 @@ let run (line : string) : string =
   | "vo" -> vo t
   | "vm" -> vm t
   | "re" -> re t
+  | "c10m" -> c10m t
   | k -> failwith ("drv_wire: unknown case kind " ^ k)
